@@ -7,7 +7,7 @@ import itertools
 from ..cfg import CFG
 from ..core import (AnalysisError, NOCONST, body_of, const_value, is_self_attr, mangle, short, unparse,
                     walk_shallow)
-from ..guards import GuardEval, canon, ctext
+from ..guards import GuardEval, canon, ctext, eval_decision_list
 
 EXPLANATION = (
     "Static proof by representation invariant: every statement of every concrete event-list class that mutates "
@@ -595,37 +595,6 @@ def r14_counter(ctx):
 
 
 # --------------------------------------------------------------------------- R1.6
-def eval_decision_list(stmts, ge):
-    """value returned by a body made of if/return under the environment of ge; 'AMBIG' / 'NORETURN' otherwise"""
-    for s in stmts:
-        if isinstance(s, ast.If):
-            v = ge.ev(s.test)
-            if v is None:
-                return 'AMBIG'
-            r = eval_decision_list(s.body if v else s.orelse, ge)
-            if r != 'NORETURN':
-                return r
-        elif isinstance(s, ast.Return):
-            if s.value is None:
-                return None
-            if isinstance(s.value, ast.IfExp):
-                v = ge.ev(s.value.test)
-                if v is None:
-                    return 'AMBIG'
-                c = const_value(s.value.body if v else s.value.orelse)
-                return 'AMBIG' if c is NOCONST else c
-            c = const_value(s.value)
-            if c is NOCONST:
-                b = ge.ev(s.value)
-                return 'AMBIG' if b is None else b
-            return c
-        elif isinstance(s, (ast.Pass, ast.Expr)):
-            continue
-        else:
-            return 'AMBIG'
-    return 'NORETURN'
-
-
 class _SubstCmp(ast.NodeTransformer):
     def __init__(self, value):
         self.value = value
